@@ -226,7 +226,15 @@ namespace
       }
     }
     CNT.iters += A[0].iters;
-    if(A[0].status != B.status) sim::fail("SOLVER_STATUS", "solver status differs from the one-process run");
+    // the stopping test is a threshold: a run that converges in its last permitted iteration in one world may need one more
+    // in the other (success vs max_iter); every other disagreement of the status is a violation
+    {
+      const long tol_it = 1 + 2 * B.noise_iters;
+      const bool boundary = ((A[0].status == int(Solver::Status::success) && B.status == int(Solver::Status::max_iter)) || (A[0].status == int(Solver::Status::max_iter) && B.status == int(Solver::Status::success)))
+        && std::labs(long(A[0].iters) - long(B.iters)) <= tol_it;
+      if(A[0].status != B.status && !boundary) sim::fail("SOLVER_STATUS", "solver status " + std::to_string(A[0].status) + " (" + std::to_string(A[0].iters) + " iterations) differs from the one-process status " + std::to_string(B.status) + " (" + std::to_string(B.iters) + " iterations)");
+      if(A[0].status != B.status) sim::probe("converged_in_the_last_permitted_iteration_in_one_world_only");
+    }
     long di = long(A[0].iters) - long(B.iters);
     const long di_tol = 1 + 2 * B.noise_iters;
     if(di < -di_tol || di > di_tol) sim::fail("ITERATIONS", "iteration count " + std::to_string(A[0].iters) + " differs from the one-process count " + std::to_string(B.iters));
